@@ -3,7 +3,7 @@ CONSTANTS
   N = 4
   RF = 3
   MaxRep = 6
-  Admins = FALSE
+  Admins = TRUE
   KeepMax = TRUE
 CONSTRAINT SimBound
 INVARIANTS Sound Complete RestartNoRegress PersistDurable MemAboveW EmitSim
